@@ -12,6 +12,27 @@ import (
 // Dump prints the facts the analyses see for a function: spec is
 // "pkg:Func" or "pkg:Type.Method". Debugging aid, not part of any check.
 func Dump(p *core.Prog, spec string) {
+	if spec == "effects" {
+		e := core.NewEffects(p)
+		var rels []string
+		for _, r := range core.RequiredPkgs {
+			rels = append(rels, r)
+		}
+		for _, m := range e.NonFreshMutations(rels...) {
+			fmt.Printf("%s  %s in %s  target origins: %v\n", p.Pos(core.InstrPos(m.Call)), core.CalleeShort(m.Call), m.Call.Parent(), m.Origins)
+		}
+		for f, ra := range e.RetAlias {
+			if len(ra) > 0 {
+				fmt.Printf("RETALIAS %s %v\n", f, ra)
+			}
+		}
+		for f, mu := range e.Mutates {
+			if len(mu) > 0 {
+				fmt.Printf("MUTATES %s %v\n", f, mu)
+			}
+		}
+		return
+	}
 	parts := strings.SplitN(spec, ":", 2)
 	if len(parts) != 2 {
 		fmt.Println("usage: -dump pkg:Func | pkg:Type.Method")
